@@ -104,6 +104,10 @@ AtEnd == i <= Len(Runs) /\ k = Len(Events(Runs[i], v)) /\ v = NRuns(Runs[i])
 (* verdict on one record: the fails of the main run and their attribution - the documented      *)
 (* deviations present in the AST explain the failure iff the run with their triggers removed    *)
 (* is clean; otherwise {"unexplained"}                                                          *)
+(* the clauses a documented deviation can explain (alias-node-in-type-position: the typed decoder  *)
+(* rejects the bytes, so Decode fails and the node line has no decoded nodes to find); a main run   *)
+(* that violates anything else is never attributed to it                                           *)
+DevClauses == {"decode", "found"}
 RunVerdict ==
   LET c == Runs[i]
       all == Append(acc, RunFails)
@@ -111,7 +115,8 @@ RunVerdict ==
       present == ToSetT(c.devs)
       residual == IF present = {} \/ Len(all) < 2 THEN main ELSE all[2]
       attr == IF main = {} THEN {}
-              ELSE IF present = {} \/ residual # {} THEN {"unexplained"} ELSE present IN
+              ELSE IF present = {} \/ residual # {} \/ ~(main \subseteq DevClauses) THEN {"unexplained"}
+              ELSE present IN
     [run |-> i, id |-> c.id, fails |-> main, attr |-> attr]
 
 (* the rows were computed for exactly the terms the specification enumerates *)
@@ -145,7 +150,7 @@ XRowVerdict(r) ==
     [xa |-> r.a, eqm |-> eqm, hash |-> hash, set |-> set,
      litvar |-> {x \in eqm : LitVariant(a, CtTerms[x])},
      \* equal pairs in which a pointer is really involved (vacuity measure)
-     nptr |-> IF HasPtr(a) THEN Cardinality({x \in N : SpecEq(a, CtTerms[x])}) ELSE 0]
+     nptr |-> IF HasPtr(a) THEN Cardinality(EQ \ eqm) ELSE 0]
 
 LifeVerdict(r) ==
   LET a == CtTerms[r.a]
